@@ -172,3 +172,12 @@ _run0 = run
 def run(ctx, rep, tier):
     _run0(ctx, rep, tier)
     _shared(ctx, rep, tier)
+
+
+_run_q01 = run
+
+
+def run(ctx, rep, tier):
+    _run_q01(ctx, rep, tier)
+    from .shared import delegate
+    delegate(ctx, rep, tier, "C01", ("C01.q",), "C10.h", "the non-accepting tail `return OK` of a state's switch is not reachable mid-chunk through a loop end state without Else")
